@@ -1245,7 +1245,9 @@ func (P *Prog) i18nChoice(fn *ssa.Function) []string {
 		return "other"
 	}
 	spec := &pathSpec{name: "i18n-choice", inlineAll: true}
-	spec.keep = func(f *ssa.Function) bool { return !inModule(funcPkgPath(f)) || !strings.HasSuffix(funcPkgPath(f), "/i18n") }
+	spec.keep = func(f *ssa.Function) bool {
+		return !inModule(funcPkgPath(f)) || !strings.HasSuffix(funcPkgPath(f), "/i18n")
+	}
 	spec.cond = func(iff *ssa.If) (string, string, string) {
 		c := cv(iff.Cond)
 		if x, eq, isN := isNilCompare(c); isN && isGet(cv(x)) {
